@@ -6,6 +6,7 @@ import (
 	"go/token"
 	"go/types"
 	"sort"
+	"strings"
 )
 
 func (e *Engine) newFctx(fi *FuncInfo) *fctx {
@@ -87,6 +88,26 @@ func (e *Engine) VerifyFunc(key string) {
 		return
 	}
 	startObl := len(e.Obls)
+	defer func() {
+		// `advisory-safety`: the function is under contract for what its clauses state; its panic-freedom obligations
+		// have the standing of the zero-annotation sweep (claimed only once they are in the ledger)
+		if c := e.P.CF.Contracts[key]; c != nil && c.AdvisorySafety && len(e.Obls) >= startObl {
+			for _, o := range e.Obls[startObl:] {
+				if o.Canary {
+					continue
+				}
+				k := o.Kind
+				if i := strings.LastIndex(k, "/"); i >= 0 {
+					k = k[i+1:]
+				}
+				switch k {
+				case "post", "goal", "inv-init", "inv-pres", "decreases", "ghost-assert", "closure-post", "closure-requires", "peel", "assigns-at":
+				default:
+					o.Advisory = true
+				}
+			}
+		}
+	}()
 	defer func() {
 		if r := recover(); r != nil {
 			if u, ok := r.(unsupported); ok {
@@ -373,6 +394,9 @@ func (fx *fctx) runHooks(st *State, where string, n int, callee string, node ast
 			}
 		}
 		b := fx.visibleBindings(st, pos)
+		if where == "precall" && fx.hookRecv != nil {
+			b["recv"] = fx.hookRecv
+		}
 		for i, r := range rets {
 			if where == "precall" {
 				if r != nil {
